@@ -288,36 +288,42 @@ package dastard
 
 // ---- one trigger cycle ----
 //@ pred RecsExcerpt(rs []*DataRecord, d *DataStreamProcessor) := forall p int :: {at(rs, p)} rs.off <= p && p < rs.off + len(rs) ==> at(rs, p) != nil && RecOK(at(rs, p), d.stream)
-//@ pred SpecsInRange(sp []RecordSpec, n int, f0 FrameIndex) := forall p int :: {at(sp, p)} sp.off <= p && p < sp.off + len(sp) ==>
-//@        1 <= at(sp, p).npre && at(sp, p).npre <= at(sp, p).firstRisingFrameIndex - f0 && at(sp, p).nsamp > at(sp, p).npre && at(sp, p).nsamp < 1000000000
+//@ pred SpecsInRange(sp []RecordSpec, n int, f0 FrameIndex, minpre int) := forall p int :: {at(sp, p)} sp.off <= p && p < sp.off + len(sp) ==>
+//@        minpre <= at(sp, p).npre && 0 <= at(sp, p).npre && at(sp, p).npre <= at(sp, p).firstRisingFrameIndex - f0 && at(sp, p).nsamp > at(sp, p).npre && at(sp, p).nsamp < 1000000000
 //@        && at(sp, p).firstRisingFrameIndex - f0 + at(sp, p).nsamp - at(sp, p).npre <= n && at(sp, p).firstRisingFrameIndex - f0 < n
+
+// EMTInv: the edge-multi search state fits the current window (see Pending / EMTOrder in the edge-multi contracts).
+//@ pred EMTInv(d *DataStreamProcessor) := EMTOK(d.EMTState) && len(d.stream.rawData) < 1000000000 && EMTOrder(d.EMTState, d.stream.firstFrameIndex, len(d.stream.rawData)) && Pending(d.EMTState, d.stream.firstFrameIndex, len(d.stream.rawData))
 
 //@ func (*DataStreamProcessor).edgeMultiTriggerComputeAppend
 //@   props C01 C08
-//@   requires WFStream(dsp.stream) && LenOK(dsp) && EMTValid(dsp)
+//@   requires WFStream(dsp.stream) && LenOK(dsp) && EMTValid(dsp) && EMTInv(dsp)
 //@   requires RecsExcerpt(records, dsp) && RecsDistinct(records)
 //@   requires LabelsOK(dsp.stream) ==> RecsLabelled(records, dsp, 0)
 //@   ensures grows: len(result) >= len(records) && (result.arr == records.arr || fresh(result))
 //@   ensures excerpts: RecsExcerpt(result, dsp)
 //@   ensures distinct: RecsDistinct(result)
-//@   ensures lens: forall p int :: {at(result, p)} result.off + len(records) <= p && p < result.off + len(result) ==> 1 <= at(result, p).presamples && at(result, p).presamples < len(at(result, p).data) && len(at(result, p).data) < 1000000000
+//@   ensures lens: forall p int :: {at(result, p)} result.off + len(records) <= p && p < result.off + len(result) ==> MinPre(dsp.EMTState) <= at(result, p).presamples && 0 <= at(result, p).presamples && at(result, p).presamples < len(at(result, p).data) && len(at(result, p).data) < 1000000000
 //@   ensures labels: LabelsOK(dsp.stream) ==> RecsLabelled(result, dsp, 0)
+//@   ensures emt: EMTInv(dsp) && dsp.EMTState.nextFrameIndexToInspect - dsp.stream.firstFrameIndex >= len(dsp.stream.rawData) - (dsp.EMTState.nsamp - dsp.EMTState.npre)
 //@   ensures stream: unchanged(dsp.stream.rawData, dsp.stream.samplesSeen, dsp.stream.firstFrameIndex, dsp.stream.firstTime, dsp.stream.framesPerSample, dsp.stream.framePeriod, dsp.NSamples, dsp.NPresamples, dsp.LastTrigger)
 //@   modifies records[*], dsp.EMTState.nextFrameIndexToInspect, dsp.EMTState.t, dsp.EMTState.u, dsp.EMTState.v, dsp.EMTState.iFirstCheckSentinel
 //@   loop 1
 //@     invariant -1 <= rangeindex && rangeindex <= len(recordSpecs) - 1 && len(records) >= len(old(records)) && fresh(recordSpecs)
-//@     invariant specs: SpecsInRange(recordSpecs, len(dsp.stream.rawData), dsp.stream.firstFrameIndex)
+//@     invariant specs: SpecsInRange(recordSpecs, len(dsp.stream.rawData), dsp.stream.firstFrameIndex, MinPre(dsp.EMTState))
 //@     invariant copy: stream.rawData == dsp.stream.rawData && stream.firstFrameIndex == dsp.stream.firstFrameIndex
 //@     invariant arr: records.arr == old(records.arr) || fresh(records)
 //@     invariant excerpts: RecsExcerpt(records, dsp)
 //@     invariant distinct: RecsDistinct(records)
-//@     invariant lens: forall p int :: {at(records, p)} records.off + len(old(records)) <= p && p < records.off + len(records) ==> 1 <= at(records, p).presamples && at(records, p).presamples < len(at(records, p).data) && len(at(records, p).data) < 1000000000
+//@     invariant lens: forall p int :: {at(records, p)} records.off + len(old(records)) <= p && p < records.off + len(records) ==> MinPre(dsp.EMTState) <= at(records, p).presamples && 0 <= at(records, p).presamples && at(records, p).presamples < len(at(records, p).data) && len(at(records, p).data) < 1000000000
 //@     invariant labels: LabelsOK(dsp.stream) ==> RecsLabelled(records, dsp, 0)
+//@     invariant emt: EMTInv(dsp) && dsp.EMTState.nextFrameIndexToInspect - dsp.stream.firstFrameIndex >= len(dsp.stream.rawData) - (dsp.EMTState.nsamp - dsp.EMTState.npre)
 
 //@ func (*DataStreamProcessor).TriggerData
 //@   props C01 C02 C08
 //@   uses wit_all
-//@   requires WFStream(dsp.stream) && LenOK(dsp) && EMTValid(dsp) && TrigOK(dsp)
+//@   requires WFStream(dsp.stream) && LenOK(dsp) && EMTValid(dsp) && TrigOK(dsp) && (dsp.EdgeMulti ==> EMTInv(dsp))
+//@   ensures emt: dsp.EdgeMulti ==> EMTInv(dsp) && dsp.EMTState.nextFrameIndexToInspect - dsp.stream.firstFrameIndex >= len(dsp.stream.rawData) - (dsp.EMTState.nsamp - dsp.EMTState.npre)
 //@   ensures sound: !dsp.EdgeMulti ==> Sound(records, dsp)
 //@   ensures edgecomplete: !dsp.EdgeMulti && dsp.EdgeTrigger ==> (forall a int :: {EdgeCrit(dsp, a)} old(ScanFrom(dsp)) <= a && a < ScanTo(dsp) && EdgeCrit(dsp, a) ==> DeadAfter(records, dsp, 0, a))
 //@   ensures frontier: !dsp.EdgeMulti ==> dsp.gfront == max(old(dsp.gfront), ScanTo(dsp)) && (old(ScanOK(dsp)) ==> ScanOK(dsp))
@@ -325,7 +331,7 @@ package dastard
 //@   ghost exit: dsp.gemitted := old(dsp.gemitted) || len(records) > 0
 //@   ensures excerpts: RecsExcerpt(records, dsp)
 //@   ensures fixedlen: !dsp.EdgeMulti ==> RecsOK(records, dsp, 0) && RecsInWin(records, dsp)
-//@   ensures analyzable: RecsDistinct(records) && (forall p int :: {at(records, p)} records.off <= p && p < records.off + len(records) ==> 1 <= at(records, p).presamples && at(records, p).presamples < len(at(records, p).data) && len(at(records, p).data) < 1000000000)
+//@   ensures analyzable: RecsDistinct(records) && (forall p int :: {at(records, p)} records.off <= p && p < records.off + len(records) ==> ite(dsp.EdgeMulti, MinPre(dsp.EMTState), 1) <= at(records, p).presamples && 0 <= at(records, p).presamples && at(records, p).presamples < len(at(records, p).data) && len(at(records, p).data) < 1000000000)
 //@   ensures labels: LabelsOK(dsp.stream) ==> RecsLabelled(records, dsp, 0)
 //@   ensures stream: unchanged(dsp.stream.rawData, dsp.stream.samplesSeen, dsp.stream.firstFrameIndex, dsp.stream.firstTime, dsp.stream.framesPerSample, dsp.stream.framePeriod, dsp.NSamples, dsp.NPresamples)
 //@   ensures triglist: len(dsp.lastTrigList.frames) == len(records) && (forall k int :: {dsp.lastTrigList.frames[k]} 0 <= k && k < len(records) ==> dsp.lastTrigList.frames[k] == records[k].trigFrame)
@@ -335,7 +341,8 @@ package dastard
 //@     invariant c02: !dsp.EdgeMulti ==> Sound(records, dsp) && RecsOK(records, dsp, 0) && RecsInWin(records, dsp)
 //@     invariant edgecomplete: !dsp.EdgeMulti && dsp.EdgeTrigger ==> (forall a int :: {EdgeCrit(dsp, a)} Base(dsp) + max(dsp.NPresamples, old(dsp.LastTrigger) - dsp.stream.firstFrameIndex + dsp.NSamples) <= a && a < ScanTo(dsp) && EdgeCrit(dsp, a) ==> DeadAfter(records, dsp, 0, a))
 //@     invariant excerpts: RecsExcerpt(records, dsp)
-//@     invariant analyzable: RecsDistinct(records) && (forall p int :: {at(records, p)} records.off <= p && p < records.off + len(records) ==> 1 <= at(records, p).presamples && at(records, p).presamples < len(at(records, p).data) && len(at(records, p).data) < 1000000000)
+//@     invariant analyzable: RecsDistinct(records) && (forall p int :: {at(records, p)} records.off <= p && p < records.off + len(records) ==> ite(dsp.EdgeMulti, MinPre(dsp.EMTState), 1) <= at(records, p).presamples && 0 <= at(records, p).presamples && at(records, p).presamples < len(at(records, p).data) && len(at(records, p).data) < 1000000000)
+//@     invariant emt: dsp.EdgeMulti ==> EMTInv(dsp) && dsp.EMTState.nextFrameIndexToInspect - dsp.stream.firstFrameIndex >= len(dsp.stream.rawData) - (dsp.EMTState.nsamp - dsp.EMTState.npre)
 //@     invariant done: forall k int :: {trigList.frames[k]} 0 <= k && k <= rangeindex ==> trigList.frames[k] == records[k].trigFrame
 //@     modifies trigList.frames[*]
 
@@ -363,12 +370,6 @@ package dastard
 // ---- edge-multi (C08) ----
 //@ pred EMTValid(d *DataStreamProcessor) := d.EMTState.npre == d.NPresamples && d.EMTState.nsamp == d.NSamples
 
-//@ func (*EMTState).edgeMultiComputeRecordSpecs
-//@   trusted
-//@   ensures isnew: fresh(result)
-//@   ensures inrange: SpecsInRange(result, len(raw), frameIndexOfraw0)
-//@   modifies s.nextFrameIndexToInspect, s.t, s.u, s.v, s.iFirstCheckSentinel
-
 // ---- per-block processing of one channel ----
 // Frame contracts of the analysis and publication steps as seen from the stream (their own
 // functional contracts are given with C13 / C05 / C06).
@@ -393,6 +394,7 @@ package dastard
 //@   ensures kept: len(dsp.stream.rawData) == min(old(len(dsp.stream.rawData)), 2 * dsp.EMTState.nsamp + 10)
 //@   ensures stamps: dsp.stream.firstFrameIndex == old(dsp.stream.firstFrameIndex) + (old(len(dsp.stream.rawData)) - len(dsp.stream.rawData)) * dsp.stream.framesPerSample
 //@   ensures labels: old(LabelsOK(dsp.stream)) ==> LabelsOK(dsp.stream)
+//@   ensures emt: old(EMTInv(dsp)) && dsp.stream.framesPerSample == 1 && old(dsp.EMTState.nextFrameIndexToInspect - dsp.stream.firstFrameIndex >= len(dsp.stream.rawData) - (dsp.EMTState.nsamp - dsp.EMTState.npre)) ==> EMTInv(dsp)
 //@   ensures scan: old(ScanOK(dsp)) && EMTValid(dsp) && dsp.stream.framesPerSample == 1 && dsp.gfront >= old(ScanTo(dsp)) && dsp.NPresamples >= 0 ==> ScanOK(dsp)
 //@   modifies dsp.stream.rawData, dsp.stream.rawData[*], dsp.stream.firstFrameIndex, dsp.stream.firstTime
 
@@ -406,7 +408,11 @@ package dastard
 //@ func (*DataStreamProcessor).processSegment
 //@   props C01 C02
 //@   requires WFStream(dsp.stream) && LenOK(dsp) && EMTValid(dsp) && !dsp.Decimate && TrigOK(dsp)
-//@   requires segment != nil && addr(dsp.stream.DataSegment) != segment
+//@   requires emt: dsp.EdgeMulti ==> EMTInv(dsp) && dsp.EMTState.mode != 1 && len(dsp.stream.rawData) + len(segment.rawData) < 1000000000 && (len(dsp.stream.rawData) > 0 ==> Contig(dsp.stream, segment))
+//@        && segment.framesPerSample == 1 && segment.firstFrameIndex >= 0 && segment.firstFrameIndex + len(segment.rawData) < 3000000000000000000 && dsp.stream.firstFrameIndex + len(dsp.stream.rawData) + len(segment.rawData) < 3000000000000000000
+//@        && (len(dsp.stream.rawData) == 0 ==> dsp.EMTState.nextFrameIndexToInspect <= segment.firstFrameIndex + dsp.EMTState.npre)
+//@   ensures emt: dsp.EdgeMulti ==> EMTInv(dsp) && dsp.EMTState.nextFrameIndexToInspect - dsp.stream.firstFrameIndex >= len(dsp.stream.rawData) - (dsp.EMTState.nsamp - dsp.EMTState.npre)
+//@   requires segment != nil && addr(dsp.stream.DataSegment) != segment && allocated(segment.rawData)
 //@   ensures scan: !dsp.EdgeMulti && old(ScanOK(dsp)) && old(Contig(dsp.stream, segment)) && old(len(dsp.stream.rawData)) > 0 ==> ScanOK(dsp)
 //@   requires writers: !IOFaults() && !QueueFull() && PubOK(dsp.DataPublisher) && OffFits(dsp) && ProjFits(dsp)
 //@   ensures window: WFStream(dsp.stream) && dsp.stream.samplesSeen == old(dsp.stream.samplesSeen) + old(len(segment.rawData)) && len(dsp.stream.rawData) == old(len(dsp.stream.rawData)) + old(len(segment.rawData))
@@ -448,6 +454,7 @@ package dastard
 //@        && dsp.AutoTrigger == state.AutoTrigger && dsp.AutoDelay == state.AutoDelay && dsp.AutoVetoRange == state.AutoVetoRange && dsp.EdgeMulti == state.EdgeMulti
 //@   ensures emt: EMTValid(dsp)
 //@   ensures rescan: old(ScanOK(dsp)) && dsp.stream.firstFrameIndex >= dsp.NSamples - dsp.NPresamples ==> ScanFrom(dsp) <= dsp.gfront && ScanOK(dsp)
+//@   ensures emtreset: result == nil && dsp.EdgeMulti && LenOK(dsp) && dsp.stream.firstFrameIndex >= 0 && len(dsp.stream.rawData) < 1000000000 && dsp.stream.firstFrameIndex + len(dsp.stream.rawData) < 4000000000000000000 ==> EMTInv(dsp)
 //@   ensures kept: unchanged(dsp.NSamples, dsp.NPresamples, dsp.gfront, dsp.stream.rawData, dsp.stream.samplesSeen, dsp.stream.firstFrameIndex)
 //@   modifies dsp.TriggerState.*, dsp.EMTState.*, dsp.EMTBackwardCompatibleRPCFields.*, dsp.LastTrigger, dsp.gemitted
 //@   ghost exit: dsp.gemitted := false
@@ -459,6 +466,7 @@ package dastard
 //@   requires nsamp < 1000000000 && npre < 1000000000 && nsamp > -1000000000 && npre > -1000000000
 //@   ensures lengths: dsp.NSamples == nsamp && dsp.NPresamples == npre
 //@   ensures emt: EMTValid(dsp)
+//@   ensures emtreset: result == nil && dsp.EdgeMulti && LenOK(dsp) && dsp.stream.firstFrameIndex >= 0 && len(dsp.stream.rawData) < 1000000000 && dsp.stream.firstFrameIndex + len(dsp.stream.rawData) < 4000000000000000000 ==> EMTInv(dsp)
 //@   ensures rescan: old(ScanOK(dsp)) && npre >= 0 && (dsp.gemitted || dsp.stream.firstFrameIndex >= dsp.LastTrigger + nsamp - npre) ==> ScanOK(dsp)
 //@   ensures kept: unchanged(dsp.LastTrigger, dsp.gemitted, dsp.stream.rawData, dsp.stream.samplesSeen, dsp.stream.firstFrameIndex)
 //@   modifies dsp.NSamples, dsp.NPresamples, dsp.EMTState.*, dsp.gfront, dsp.projectors, dsp.basis, dsp.modelDescription
